@@ -160,6 +160,26 @@ func (vc *FnVC) call(c ssa.CallInstruction, val *ssa.Call) {
 	}
 
 	pre := vc.cur
+	// call-site assertions of the caller's contract ("call NAME[#k] assert E"), checked before the call
+	if vc.ct != nil {
+		for _, ca := range vc.ct.CallAssert {
+			if ca.Callee != name || (ca.Ordinal != 0 && ca.Ordinal != ord) {
+				continue
+			}
+			vc.matchedSites["assert "+ca.Callee] = true
+			env := vc.newEnv(pre, vc.mem0)
+			env.resolve = vc.blockResolver(vc.curBlock, pre)
+			for i, a := range args {
+				env.names[fmt.Sprintf("arg%d", i)] = a
+			}
+			tv, err := env.tr(ca.C.E)
+			if err != nil {
+				panic(unsupported{fmt.Sprintf("call %s assert: %v", name, err)})
+			}
+			vc.oblige("assert", fmt.Sprintf("assert@%s#%d", name, ord), vc.b(), tv.t, c.Pos(), ca.C.Text)
+			vc.assume(vc.b(), tv.t)
+		}
+	}
 	calleeGhosts := map[string]TV{}
 	// results
 	results := make([]TV, nres)
@@ -388,6 +408,7 @@ func (vc *FnVC) applyCallGhostsX(name string, args, results []TV, m *Mem, extra 
 		if g.Callee != name || (g.Ordinal != 0 && g.Ordinal != ord) {
 			continue
 		}
+		vc.matchedSites["ghost "+g.Callee] = true
 		env := vc.newEnv(m, vc.mem0)
 		env.resolve = vc.blockResolver(vc.curBlock, m)
 		for i, a := range args {
